@@ -74,21 +74,29 @@ def run(ctx):
     for b in impl.reachable_blocks():
         if impl.term(b)["k"] == "switch":
             n = compare_norm(impl.switch_cond(b))
-            if n and "len(buf)" in n[0]:
-                caps.append(show_norm(n))
-    ck.ob("R09a", "op_utils::u32_from_u8_impl|4-byte cap", "+len(buf) -4 >0" in caps,
+            if n and "len($1)" in impl.unparam(n[0]):
+                caps.append(show_norm((impl.unparam(n[0]), n[1], n[2])))
+    ck.ob("R09a", "op_utils::u32_from_u8_impl|4-byte cap", "+len($1) -4 >0" in caps,
           "a multiplier of more than 4 bytes (opcode longer than 5 bytes) is refused", site=impl.where(0), detail=caps)
     # None -> Invalid
     nb = u32[0][1]["target"]
     inv = False
-    dv = None
-    for b in f.reach_from([nb]):
+    dst = u32[0][1]["dst"]["l"]
+    for b in sorted(f.reachable_blocks()):
         dv = f.discr_variants(b)
-        if dv and set(dv.values()) == {"None", "Some"}:
-            for tgt, v in f.succ(b):
-                if v != "otherwise" and dv[v] == "None" and f.is_error_block(tgt) and "Invalid" in f.err_variants_from(tgt):
-                    inv = True
-            break
+        if not dv or set(dv.values()) != {"None", "Some"} or f.term(b)["k"] != "switch":
+            continue
+        # the switch on the result of u32_from_u8 itself (its discriminant is read from the call's destination)
+        src = [st["rv"]["discr"]["l"] for bb in f.dominators(b) for st in f.stmts(bb) if "rv" in st and "discr" in st["rv"]
+               and mir.op_place(f.term(b)["on"]) and st["d"]["l"] == mir.op_place(f.term(b)["on"])["l"]]
+        if dst not in src:
+            continue
+        for tgt, v in f.succ(b):
+            if v != "otherwise" and dv[v] == "None" and f.is_error_block(tgt) and "Invalid" in f.err_variants_from(tgt):
+                inv = True
+            if v == "otherwise" and "None" not in [dv[x] for _, x in f.succ(b) if x != "otherwise"] and f.is_error_block(tgt) \
+                    and "Invalid" in f.err_variants_from(tgt):
+                inv = True
     ck.ob("R09a", F + "|too long -> Invalid", inv, "an opcode whose multiplier does not fit 4 bytes fails with Invalid", site=f.where(nb))
     # selector
     sel = None
@@ -114,43 +122,36 @@ def run(ctx):
         t = f.term(b)
         if t["k"] == "call" and (t.get("callee") or "").split("::")[-1] in ("checked_mul", "wrapping_mul", "saturating_mul", "overflowing_mul", "unchecked_mul"):
             args = [show(f.expr_op(a, deep=False)) for a in t["args"]]
-            if any("cost_multiplier" in a for a in args):
+            # the multiplier is the value that comes from u32_from_u8 (by provenance, not by name)
+            if any("op_utils::u32_from_u8(" in show(f.expr_op(a)) for a in t["args"]):
                 mults.append((b, (t.get("callee") or "").split("::")[-1], args))
         for st in f.stmts(b):
             rv = st.get("rv", {})
             if "bin" in rv and rv["bin"][0].startswith("Mul"):
                 txt = show(f.expr_rvalue(rv, deep=False))
-                if "cost_multiplier" in txt:
+                if "op_utils::u32_from_u8(" in show(f.expr_rvalue(rv)) and "len(" not in txt:
                     mults.append((b, "plain *", [txt]))
     ck.floor("multiplier applications in op_unknown", len(mults), 1)
     # final check_cost dominating the multiplications
     ccs = [(b, t) for b, t in f.calls_to("cost::check_cost")]
     # model test
     model_tests = [t for t in fr.flag_tests(f) if t["flag"] == "NEW_COST_MODEL"]
-    # new_cost_model is a stored bool: tests are on the local
-    nl = f.local_by_name("new_cost_model")
     for b, kind, args in mults:
         pre = [cb for cb, ct in ccs if f.dominates(cb, b) and f.question_mark(cb) and f.dominates(f.question_mark(cb)[0], b)
                and not f.in_loop(cb)]
         ck.ob("R09a", F + f"|base checked before {kind}", bool(pre),
               "check_cost(base, max_cost) precedes the multiplication (the base, not the product, is compared with the budget)",
               site=f.where(b), detail={"check_cost blocks": pre})
-        # which model controls this multiplication?
+        # which model controls this multiplication?  (flag tests are read through stored bools, whatever they are called)
         arm = "unconditional"
-        for k in f.dominators(b):
-            t = f.term(k)
-            if t["k"] == "switch" and t.get("ty") == "bool":
-                e = f.expr_op(t["on"], deep=False)
-                if nl and any(x[0] in ("var", "named") and x[2] == nl[0] for x in walk(e)):
-                    be = f.bool_edges(k)
-                    neg = strip(e)[0] == "un"
-                    t_edge, f_edge = be
-                    if neg:
-                        t_edge, f_edge = f_edge, t_edge
-                    if f.dominates(t_edge, b) and t_edge != f_edge:
-                        arm = "new cost model"
-                    elif f.dominates(f_edge, b):
-                        arm = "classic cost model"
+        for mt in model_tests:
+            k = mt["block"]
+            if not f.dominates(k, b) or mt["set_edge"] == mt["clear_edge"]:
+                continue
+            if f.dominates(mt["set_edge"], b):
+                arm = "new cost model"
+            elif f.dominates(mt["clear_edge"], b):
+                arm = "classic cost model"
         checked = kind == "checked_mul"
         if checked:
             # None edge must be an error
@@ -231,10 +232,17 @@ def run(ctx):
     d = cr.fn("<chia_dialect::ChiaDialect as dialect::Dialect>::op")
     ck.analysed(d)
     uo = d.calls_to("chia_dialect::unknown_operator")
-    ck.floor("unknown_operator call sites in ChiaDialect::op", len(uo), 4)
+    ck.floor("unknown_operator call sites in ChiaDialect::op", len(uo), 2)
     for b, t in uo:
-        args = [show(d.expr_op(a, deep=False)).replace("&mut ", "").replace("*", "") for a in t["args"]]
-        ok = args == ["allocator", "o", "argument_list", "flags", "max_cost"] and t["dst"]["l"] == 0
+        # by position, not by name: (self, allocator, o, argument_list, max_cost, extension) are $1..$6; the flags argument is
+        # the dialect's own flag set (self.flags, possibly widened by the extension)
+        args = [d.unparam(show(d.expr_op(a, deep=False))).replace("&mut ", "").replace("*", "") for a in t["args"]]
+        e3 = strip(d.expr_op(t["args"][3], deep=False)) if len(t["args"]) == 5 else ("none",)
+        if e3[0] in ("var", "named") and e3[2] > d.nargs and "ClvmFlags" in d.local_ty(e3[2]):
+            srcs = [show(d.expr_rvalue(d.def_rvalue(s_), deep=False)) for s_ in d.defs(e3[2])]
+            if srcs and all("self.flags" in x for x in srcs):
+                args[3] = "FLAGS"
+        ok = args == ["$2", "$3", "$4", "FLAGS", "$5"] and t["dst"]["l"] == 0
         ck.ob("R09d", f"{d.path}|unknown_operator@{'+'.join(args)}", ok,
               "the unknown-operator path receives (allocator, o, argument_list, flags, max_cost) unchanged and its result is returned",
               site=d.where(b), detail=args)
